@@ -815,6 +815,21 @@ impl World {
         }
     }
 
+    /// C02 / C09: which blocks took effect is compared with the reference *before* the state is read:
+    /// a block applied without its dependencies typically makes `read` abort, which would otherwise end
+    /// the run as inconclusive before the comparison is reached.
+    fn early_block_status_check(&mut self, r: usize, when: &str) -> Res {
+        if !self.is(&["C02", "C09"]) || cfg!(feature = "real") {
+            return Ok(());
+        }
+        let items: Items = {
+            let seen = &self.replicas[r].seen;
+            self.replicas[r].disk.items().into_iter().filter(|(k, _)| seen.contains(k)).collect()
+        };
+        let st = RefState::from_items(&items);
+        self.check_block_status(r, &st, when)
+    }
+
     /// C03 / C01(b): `Melda::new` on (a copy of) the items this replica has seen equals the live state.
     fn check_reopen_equals_live(&mut self, r: usize, live_digest: &Value, when: &str) -> Res {
         let items: Items = {
@@ -1004,7 +1019,7 @@ impl World {
 
     fn op_refresh(&mut self, r: usize, kind: u8) -> Res {
         let m_staging = { let m = self.live(r); self.call("has_staging", || m.has_staging())? };
-        let before = if m_staging || self.is(&["C12"]) { Some(self.digest_of(r)?) } else { None };
+        let before = if m_staging || self.is(&["C12", "C15"]) { Some(self.digest_of(r)?) } else { None };
         let applied_before: BTreeSet<String> = api::block_status(self.live(r)).into_iter().filter(|(_, s)| s == "applied").map(|(k, _)| k).collect();
         let keys_now = self.replicas[r].disk.keys();
         let api_name = if kind == 0 { "refresh" } else { "reload" };
@@ -1035,6 +1050,7 @@ impl World {
                 self.replicas[r].seen = keys_now;
                 self.replicas[r].time_travel = false;
                 self.replicas[r].fresh = true;
+                self.early_block_status_check(r, api_name)?;
                 let after = self.digest_of(r)?;
                 if self.is(&["C12"]) {
                     // nothing new to apply => nothing may change
@@ -1048,6 +1064,14 @@ impl World {
             Err(e) => {
                 if self.is(&["C01", "C02"]) {
                     viol!(self, "refresh-succeeds", "refresh-err", "{} failed on undamaged storage: {}", api_name, e);
+                }
+                if self.is(&["C12", "C15"]) {
+                    // nothing was staged, storage is undamaged: whatever the call returns, it must not
+                    // change (here: wipe) what the replica shows
+                    let after = self.digest_of(r)?;
+                    if before.as_ref().map_or(false, |b| b["doc"] != after["doc"]) || (before.is_none() && after["doc"].get("err").is_some() && self.replicas[r].commits > 0) {
+                        viol!(self, "failed-reload-keeps-document", "failed-reload-changed-doc", "{} returned an error ({}) although nothing was staged, and changed the visible document:\n before={}\n after={}", api_name, e, before.as_ref().map(|b| trunc(&b["doc"])).unwrap_or_default(), trunc(&after["doc"]));
+                    }
                 }
                 Err(Stop::Inconclusive(format!("{} failed: {}", api_name, e)))
             }
@@ -1079,6 +1103,7 @@ impl World {
                 self.replicas[r].time_travel = false;
                 self.replicas[r].model_doc = None;
                 self.replicas[r].failed_commit_pending = false;
+                self.early_block_status_check(r, "restart")?;
                 self.sync_point(r, "restart", None)
             }
             Err(e) => {
@@ -1095,7 +1120,8 @@ impl World {
             return Ok(());
         }
         let n = self.replicas[r].checkpoints.len();
-        let cp = self.replicas[r].checkpoints[sel as usize % n].clone();
+        // u32::MAX selects the newest checkpoint
+        let cp = self.replicas[r].checkpoints[if sel == u32::MAX { n - 1 } else { sel as usize % n }].clone();
         if cp.heads.is_empty() {
             return Ok(());
         }
@@ -1580,6 +1606,11 @@ impl World {
                 viol!(self, "resolved-state-exists", "object-without-winner", "{}: object {} of replica {} has no winning revision: every leaf is sealed or dangling; revisions {:?}", when, u, r, st.trees[u]);
             }
             if lw != w {
+                if std::env::var("VERIF_DEBUG").is_ok() {
+                    if let Some(m) = self.replicas.get(r).and_then(|x| x.live.as_ref()) {
+                        eprintln!("DEBUG status {:?}\n complete {:?}\n blocks {:?}\n dump {:?}\n items {:?}", api::block_status(m), st.complete, st.blocks.values().map(|b| (b.id.clone(), b.parents.clone(), b.packs.clone(), b.changes.clone())).collect::<Vec<_>>(), api::dump_tree(m, u), self.replicas[r].disk.keys());
+                    }
+                }
                 viol!(self, "winner-rule", "ref-winner", "{}: replica {} reports winner {:?} for {} but the rule gives {:?} (leaves {:?})", when, r, lw, u, w, leaves);
             }
             let mut conf: Vec<String> = leaves.iter().filter(|l| Some(*l) != w.as_ref()).cloned().collect();
